@@ -121,6 +121,7 @@ func vfGetCheck(r *RIB, ref *vfRef, name string, typ spb.AFTType) []*spb.GetResp
 				} else {
 					vfAssert(vfAnd(x.hasPop, b.GetPopTopLabel().GetValue() == x.pop), "C07:next-hop-pop-top-label-equals-last-programmed")
 				}
+				vfAssert(vfAnd(int32(b.GetEncapsulateHeader()) == x.encap, int32(b.GetDecapsulateHeader()) == x.decap), "C07:next-hop-encapsulation-headers-equal-last-programmed")
 			}
 		default:
 			vfAssert(false, "C07:known-entry-kind")
@@ -155,7 +156,7 @@ func vfEqBV(has bool, b []byte, whas bool, wv uint8) bool {
 
 func vfGetRun(pre vfPreCfg, rich, fixLow bool) {
 	r, ref := vfNewPair(true)
-	g := &vfGen{rich: rich, fixLow: fixLow}
+	g := &vfGen{rich: rich, fixLow: fixLow, enums: rich}
 	vfCanonical(r, ref, g, pre)
 	vfReach("pre-built")
 	typ := vfAFTTypes[vfInt("aft", 0, len(vfAFTTypes)-1)]
